@@ -65,6 +65,50 @@ def stakingCall (c : Call) (g : Option Grant) : Out :=
         | none => .reject
         | some g' => .ok c.delegator g'
 
+/-! ### what a call leaves behind on the Cosmos side
+
+A failing precompile call only rewinds the EVM's journal: whatever the message server has written to the Cosmos stores
+before the failure stays if the calling contract carries on (a low-level CALL whose result it ignores).  So the *order* in
+which the method consults the authorization and runs the message matters, not only the verdict. -/
+
+/-- the order of the method's steps: `acceptFirst` = check, Accept, message, update (the code since 5f6ffb7);
+    `acceptAfter` = check (limit only), message, update-with-Accept (the code before) -/
+inductive Order
+  | acceptFirst
+  | acceptAfter
+  deriving Repr, DecidableEq
+
+structure Effects where
+  ok : Bool                            -- what the call returns to the EVM
+  ran : Option (Nat × Nat × Nat)       -- the message the message server executed: (delegator, validator, amount)
+  grant : Option Grant                 -- the stored grant afterwards
+  deriving Repr, DecidableEq
+
+def stakingEffects (ord : Order) (c : Call) (g : Option Grant) : Effects :=
+  let isCallerOrigin := c.caller == c.origin
+  let isCallerDelegator := c.caller == c.delegator
+  if !isCallerDelegator && c.origin != c.delegator then ⟨false, none, g⟩
+  else if isCallerOrigin then
+    if c.native then ⟨true, some (c.delegator, c.val, c.amt), g⟩ else ⟨false, none, g⟩
+  else
+    match g with
+    | none => ⟨false, none, g⟩
+    | some gr =>
+      if exceeds gr.limit c.amt then ⟨false, none, g⟩
+      else match ord with
+        | .acceptFirst =>
+          (match accept gr c.val c.amt with
+           | none => ⟨false, none, g⟩                                    -- refused before anything runs
+           | some g' =>
+             if c.native then ⟨true, some (c.delegator, c.val, c.amt), g'⟩
+             else ⟨false, none, g⟩)                                       -- the message server failed: nothing saved
+        | .acceptAfter =>
+          if !c.native then ⟨false, none, g⟩
+          else
+            (match accept gr c.val c.amt with
+             | none => ⟨false, some (c.delegator, c.val, c.amt), g⟩      -- the message has run; the refusal comes too late
+             | some g' => ⟨true, some (c.delegator, c.val, c.amt), g'⟩)
+
 /-! ### allowance bookkeeping through approve / increase / decrease / revoke -/
 
 inductive AOp
